@@ -787,3 +787,8 @@ mod tests {
         assert!(reader.is_trailer());
     }
 }
+
+// Verification harnesses (Kani); compiled only by the Kani compiler, which sets cfg(kani).
+#[cfg(kani)]
+#[path = "/verif/harness/payload.rs"]
+mod verif_kani;
